@@ -97,6 +97,20 @@ CHECKS = [
         "text": "Decides sensitivity as reachability: the canonical node carries role, processor_ref, full-depth params, ports and the enumerate() declaration index and is hashed whole into the node uuid; the node semantic id hashes the whole sweep metadata minus exactly the UI-only keys; the pipeline semantic id covers node uuid and node semantic id of every node in order; config id covers every pair; pipeline id the whole graph; the sweep metadata carries element_ref, expression signatures, variable domains (every RangeSpec field; count and full digest of sequences; from_context key), mode, broadcast, collection, dependencies in all three generated variants; string processor references are hashed as written; the same metadata enriches canonical nodes on both paths.",
         "note": "Assumes sha256/uuid5/json.dumps(sort_keys) injectivity. Equality of expression values is C12's.",
     },
+    {
+        "property_id": "C01",
+        "design_ref": "DESIGN.md section 3, C01",
+        "technique": "static analysis: first-match chain extraction of the resolver, who-may-resolve and def-use of node configuration, guard dominance (type gate, declared-key membership) on CFGs, must-pass-through for the probe's keyed write, loop-carried dependence in execute, template checks of slicers / shorthands / IO adapters",
+        "text": "Decides the mechanisms the semantics rest on, each a necessary condition: every node resolves parameters only through resolve_runtime_value on its own unmodified configuration and the run context, whose chain is config, context, default, KeyError; a data node body is dominated by issubclass(type(data), input type) with TypeError otherwise and the caller's data is only replaced when it is None; probe nodes return payload.data and write the result under self.context_key on every path, operation nodes return the processor result; undeclared context writes/deletes are rejected (validating observer, DataOperation._notify_context_update) and context processors get a validating observer built from their declared keys, reset in finally; execute visits nodes once in order, carries data/context forward and re-raises; slicers map element-wise in order with the resolved arguments; the four shorthand resolvers feed their factories in documented argument order; IO adapters produce / pass through.",
+        "note": "The statement as a whole (result equals a reference interpreter for all programs and inputs) is not decided; processors are assumed to do what their metadata declares.",
+    },
+    {
+        "property_id": "C02",
+        "design_ref": "DESIGN.md section 3, C02",
+        "technique": "static analysis: sibling agreement of the inspection and run-time first-match chains, accumulator classification and intra-iteration ordering on a CFG for the required-key set, loop-carried dependence and guard shape of the type-flow check, def-use of the abstract context state updates",
+        "text": "Decides the structural preconditions of soundness: inspect_origin and resolve_runtime_value consult config, context (not deleted), default, required in the same order and node constructors and the builder share one unknown-parameter classifier; the required-key set is collected per node against keys produced by earlier nodes only, before the node's own keys are registered, and is not reduced afterwards; the type check compares each typed input with the output type carried from the last node that declared one, updated for every typed node, in the run-time gate's direction, and its errors are raised; per node every created key (incl. probe key) is recorded as produced by this node and un-deleted, suppressed keys become deleted, classification reads the live state and precedes the node's own updates.",
+        "note": "Assumes per-node declarations of processors are true. The implication 'accepted => no flow failure' for arbitrary user processors and the dynamic comparison of reported facts are not decided.",
+    },
 ]
 _TODO = "check not built yet in this session (planned: DESIGN.md section 3); not claimed until its rules run clean and fire on their variants"
 NOT_APPLICABLE = [
